@@ -17,7 +17,7 @@
 
 import os
 
-from drivers import mdexec
+from drivers import mdexec, strace_kill
 from harness import common, mdtrace
 
 from . import mdshared as S
@@ -92,6 +92,50 @@ def real_jobs(tier):
     for n, (c, _) in enumerate(jobs):
         c["id"] = "r%04d" % n
     return jobs
+
+
+def syscall_kills(rep, tier, rng, scratch):
+    """SIGKILL at the N-th write/pwrite64/rename touching the HDF5 / XYZ / temp / checkpoint files."""
+    info = {"available": strace_kill.available(), "points": 0, "runs": 0, "accepted": 0, "killed_before_run_loop": 0}
+    if not info["available"]:
+        return info, [], {}, []
+    cad = lambda **k: dict({s: 0 for s in S.STREAMS}, **k)  # noqa: E731
+    cases = [dict(engine="basic", system="h2o_h2", molid=[0], steps=5, cad=cad(data=1, coordinates=2), xyz=1, ckpt=2, print=1, stub=True)]
+    if tier == "thorough":
+        cases += [dict(engine="langevin", system="h2o_h2", molid=[0, 1], steps=6, cad=cad(data=2, velocities=1, forces=3), xyz=2, ckpt=3, print=1, stub=True),
+                  dict(engine="xl", k=4, system="h2o_h2", molid=[1], steps=5, cad=cad(coordinates=1), xyz=0, ckpt=1, print=0, stub=True)]
+    jobs = []
+    for n, case in enumerate(cases):
+        root = os.path.join(scratch, f"sk{n}")
+        pts = strace_kill.dry_run(dict(case, id="dry"), os.path.join(root, "dry"))
+        info["points"] += len(pts)
+        mdexec.reference(case, os.path.join(root, "ref"))
+        if tier == "quick":
+            keep = [p for p in pts if p[2] != ".h5"] + rng.sample([p for p in pts if p[2] == ".h5"], min(14, len([p for p in pts if p[2] == ".h5"])))
+        else:
+            keep = pts
+        for m, (sc, when, kind) in enumerate(keep):
+            jobs.append(dict(case=dict(case, id=f"sk{n}_{m:04d}"), wd=os.path.join(root, f"k{m:04d}"), syscall=sc, when=when, refdir=os.path.join(root, "ref"), kind=kind))
+    res = common.run_forked(jobs, strace_kill.kill_run, timeout=1800)
+    traces, byid, out_jobs = [], {}, []
+    for j, r in zip(jobs, res):
+        if not r.get("ok"):
+            rep.machinery(f"syscall kill run failed: {r.get('error')} {str(r.get('tb'))[-300:]}")
+            continue
+        o = r["result"]
+        info["runs"] += 1
+        fields = dict(S.classify_fields(j["case"], [["syscall", 0, "hard"]]), syscall=j["syscall"], file=j["kind"])
+        for pr in o["problems"]:
+            rep.violation(pr["kind"], {"case": j["case"], "kill_at": [j["syscall"], j["when"], j["kind"]], "problem": pr}, **fields)
+        if not any(e["name"] == "init" for e in o["trace"]["ev"]):
+            info["killed_before_run_loop"] += 1
+            if o["final_obs"]["ckpt"]["done"] >= 0:
+                rep.violation("checkpoint_without_run", {"case": j["case"], "kill_at": [j["syscall"], j["when"]]}, **fields)
+            continue
+        traces.append(o["trace"])
+        byid[o["trace"]["id"]] = (j, o)
+        out_jobs.append(j)
+    return info, traces, byid, out_jobs
 
 
 def main(tier):
@@ -169,13 +213,32 @@ def main(tier):
         trans += rres.generated
         rn_acc, rsamples = S.report_results(rep, rjobs, rresults, rverdicts, "tierB")
         maxdev = max([r["result"].get("maxdev", 0.0) for r in rresults if r.get("ok")] or [0.0])
+        # ---- 5. syscall-level kills --------------------------------------------------------
+        sk_info, sk_traces, sk_byid, _ = syscall_kills(rep, tier, rng, scratch)
+        if sk_traces:
+            skv, skres = mdtrace.validate(sk_traces, scratch, max_crash=3)
+            if skres.error:
+                rep.machinery("MDRunTrace(syscall kills): " + skres.error[:600])
+            states += skres.distinct
+            trans += skres.generated
+            for tid, v in skv.items():
+                j, o = sk_byid[tid]
+                if v["accepted"]:
+                    sk_info["accepted"] += 1
+                else:
+                    ev = o["trace"]["ev"]
+                    fields = dict(S.classify_fields(j["case"], [["syscall", 0, "hard"]]), syscall=j["syscall"], file=j["kind"])
+                    rep.violation("property_violated_on_trace" if v["bad"] != "-" else "trace_rejected",
+                                  {"case": j["case"], "kill_at": [j["syscall"], j["when"], j["kind"]], "matched_events": v["l"], "of": v["n"], "model_pc": v["pc"], "violated_property": v["bad"],
+                                   "next_event_not_explained": ev[v["l"]] if v["l"] < len(ev) else None, "segments": o["segments"]}, rejected_at=(ev[v["l"]] if v["l"] < len(ev) else {}).get("name"), violated=v["bad"], **fields)
         n_unarmed = sum(1 for r in results if r.get("ok") and r["result"]["unarmed"])
         nontriv = len({common.sha([c["cad"], c["xyz"], c["ckpt"], c["steps"], c["engine"], s]) for c, s in jobs if s})
         cov = {
             "states": states,
             "transitions": trans,
-            "traces_validated_against_impl": len(verdicts) + len(rverdicts),
-            "traces_accepted": n_acc + rn_acc,
+            "traces_validated_against_impl": len(verdicts) + len(rverdicts) + len(sk_traces),
+            "traces_accepted": n_acc + rn_acc + sk_info["accepted"],
+            "syscall_level_kills": sk_info,
             "tierB_real_es": {"runs": len(rjobs), "accepted": rn_acc, "tolerance": TOL, "largest_deviation_from_reference": maxdev,
                               "engines": sorted({c["engine"] + ("+exc" if "excited_states" in c.get("params", {}) else "") for c, _ in rjobs})},
             "samples": samples or [{"note": "no accepted trace"}],
